@@ -161,6 +161,23 @@ fn passwords_of(s: &WScenario) -> Vec<Option<Vec<u8>>> {
     v
 }
 
+/// Fault positions of a sweep over a run of `n` I/O calls: every call index while the run is short; for a
+/// long run (e.g. `new_append` searching backwards through a 60 KB archive comment: two calls per byte) the
+/// first and the last 1200 indices and 600 evenly spaced ones in between - the sweep is quadratic in `n`
+/// and must stay a fixed amount of work.
+fn fault_indices(n: usize) -> Vec<usize> {
+    const EDGE: usize = 1200;
+    const MID: usize = 600;
+    if n <= 2 * EDGE + MID {
+        return (0..n).collect();
+    }
+    let mut v: Vec<usize> = (0..EDGE).collect();
+    let span = n - 2 * EDGE;
+    v.extend((0..MID).map(|i| EDGE + i * span / MID));
+    v.extend(n - EDGE..n);
+    v
+}
+
 fn sweep_writer(s: &WScenario, info: &mut Info) -> Result<(), String> {
     let r0 = run_writer(s, usize::MAX, (false, 0), true)?;
     if let Some(e) = &r0.first_err {
@@ -169,7 +186,8 @@ fn sweep_writer(s: &WScenario, info: &mut Info) -> Result<(), String> {
     let pws = passwords_of(s);
     let l0 = if s.by_drop { None } else { Some(logical(r0.bytes.as_ref().ok_or("harness: no bytes")?, &pws).map_err(|e| format!("harness: fault-free archive unreadable: {e}"))?) };
     info.nontrivial = r0.ops > 0;
-    for k in 0..r0.ops {
+    info.label_if(fault_indices(r0.ops).len() < r0.ops, "long run: sampled fault positions");
+    for k in fault_indices(r0.ops) {
         for mode in MODES {
             let sticky = format!("{}, kind={}", mode.0, crate::sio::ek_name(mode.1));
             FAULT_RUNS.fetch_add(1, Ordering::Relaxed);
@@ -256,7 +274,8 @@ fn sweep_writer_far(start: u64, info: &mut Info) -> Result<(), String> {
         return Err("harness: header offsets are not beyond 4 GiB".into());
     }
     info.nontrivial = n > 0;
-    for k in 0..n {
+    info.label_if(fault_indices(n).len() < n, "long run: sampled fault positions");
+    for k in fault_indices(n) {
         for mode in MODES {
             FAULT_RUNS.fetch_add(1, Ordering::Relaxed);
             BY_KIND[kinds[k] as usize].fetch_add(1, Ordering::Relaxed);
@@ -322,7 +341,8 @@ fn sweep_reader_x(bytes: &[u8], pws: &[Option<Vec<u8>>], stream: bool, start: us
     let (r0, n, kinds) = catch(|| run(usize::MAX, (false, 0), true)).map_err(|p| format!("harness: fault-free read panicked: {p}"))??;
     let r0 = r0.map_err(|_| "harness: fault-free open failed".to_string())?;
     info.nontrivial = n > 0 && !r0.is_empty();
-    for k in 0..n {
+    info.label_if(fault_indices(n).len() < n, "long run: sampled fault positions");
+    for k in fault_indices(n) {
         // streaming: one-shot only. A sticky failure also hits the drop-time drain of the entry
         // whose read just failed, and that drain panics by design ("Could not consume all of the
         // output of the current ZipFile") - a Drop, not a Result-returning call.
@@ -419,7 +439,7 @@ fn sweep_big_open(n_entries: u32, kmax: usize, append: bool) -> Result<(), Strin
 }
 
 pub fn run(ctx: &mut Ctx) {
-    ctx.rule("each scenario is first run failure-free under a counting stream (n I/O calls), then re-run with a hard error injected at EVERY call index k<n, as a one-shot and as a sticky failure of kind Other, and with the kinds UnexpectedEof (one-shot, sticky) and Interrupted (one-shot: std's own retry loops swallow it, then the result must be the failure-free one); after the first error the scenario keeps issuing its remaining calls, then finish(), a second finish() and drop. readers: open + read every entry (seekable; streaming fully consumed; archives with encrypted entries a second time with a caller that reads 5 bytes at a time and calls read() again after an error) of the seed archives (plain, ZIP64, ZipCrypto, AES) and generated archives. writers: generated programs over all entry kinds, methods, extra data, aligned, ZipCrypto, optional append base and raw copies, completed by finish or drop; half of them with a caller that issues EVERY call of an operation whatever the earlier ones returned (write after a refused start_file, end_extra_data after a failed write) and calls flush() after each operation. writers_methods: every method x every kind of following operation, the same two callers. writers_far: two entries + comment written to a sparse sink that starts beyond 4 GiB, so the ZIP64 end record and locator are written and EVERY I/O call of the run (each field of those records) is failed in turn. big_open: archives with > 65535 entries, a fault at every one of the first K I/O calls (quick 48, thorough 200) of ZipArchive::new and of new_append (+1 entry, finish). Oracle: no panic/abort anywhere; if no call returned an error the logical result (entries, content, comment as seen by the crate reader and the independent parser) equals the failure-free result. Non-trivial = the failure-free run performs >=1 I/O call. evaluations counts scenarios; coverage.fault_runs counts injected-fault executions.");
+    ctx.rule("each scenario is first run failure-free under a counting stream (n I/O calls), then re-run with a hard error injected at EVERY call index k<n (runs longer than 3000 I/O calls: the first and last 1200 indices and 600 evenly spaced ones), as a one-shot and as a sticky failure of kind Other, and with the kinds UnexpectedEof (one-shot, sticky) and Interrupted (one-shot: std's own retry loops swallow it, then the result must be the failure-free one); after the first error the scenario keeps issuing its remaining calls, then finish(), a second finish() and drop. readers: open + read every entry (seekable; streaming fully consumed; archives with encrypted entries a second time with a caller that reads 5 bytes at a time and calls read() again after an error) of the seed archives (plain, ZIP64, ZipCrypto, AES) and generated archives. writers: generated programs over all entry kinds, methods, extra data, aligned, ZipCrypto, optional append base and raw copies, completed by finish or drop; half of them with a caller that issues EVERY call of an operation whatever the earlier ones returned (write after a refused start_file, end_extra_data after a failed write) and calls flush() after each operation. writers_methods: every method x every kind of following operation, the same two callers. writers_far: two entries + comment written to a sparse sink that starts beyond 4 GiB, so the ZIP64 end record and locator are written and EVERY I/O call of the run (each field of those records) is failed in turn. big_open: archives with > 65535 entries, a fault at every one of the first K I/O calls (quick 48, thorough 200) of ZipArchive::new and of new_append (+1 entry, finish). Oracle: no panic/abort anywhere; if no call returned an error the logical result (entries, content, comment as seen by the crate reader and the independent parser) equals the failure-free result. Non-trivial = the failure-free run performs >=1 I/O call. evaluations counts scenarios; coverage.fault_runs counts injected-fault executions.");
     ctx.assume("streaming entries are read to the end, so the failure lands in a Result-returning call (the documented panic in the streaming ZipFile's drop-time drain is outside the property's wording)");
     ctx.assume("completion by drop swallows errors by design; for drop scenarios only the no-panic clause is checked");
     let seeds = seeds::small_seeds();
